@@ -462,6 +462,11 @@ class Unit:
                 text = splice_fn(text, sp)
                 self.lost_hints += sp.lost_hints
                 ext = any('external_body' in a for a in sp.attrs)
+                if ext:
+                    # contract of a function whose body is NOT verified in this unit: an ASSUMPTION, never an obligation
+                    for cid_ in sp.clause_ids():
+                        if cid_ in self.clauses:
+                            self.clauses[cid_].kind = 'assumed'
                 if not ext:
                     self.fns_under_contract.append(dict(unit=self.id, function=sp.name, file=rec.get('file'),
                                                         item=rec.get('item'), clauses=sp.clause_ids()))
@@ -729,6 +734,11 @@ def run_unit(uid, tier='quick', repo=REPO, keep=None, seed=0):
         r['dropped_hints'] = sorted(dropped)
         r['lost_hints'] = sorted(set(u.lost_hints))
         r['passes'] = passes
+        for c_ in u.clauses.values():
+            # naming convention: ids containing `assumed` mark contracts that are assumptions in this unit (trait-level
+            # contracts on generic parameters, callee contracts proved in another unit)
+            if re.search(r'(^|\.)assumed[._]', c_.id):
+                c_.kind = 'assumed'
         r.update(props=u.props, primary=u.primary, cmd=res['cmd'], verified=an['verified'], errors=an['errors'],
                  failed=an['failed'], panic=an['panic'], termination=an['termination'],
                  clauses={c.id: dict(kind=c.kind, text=c.text, fn=c.fn, props=c.props(u.primary)) for c in u.clauses.values()},
